@@ -275,6 +275,12 @@ impl<'tcx> Cx<'tcx> {
             }
             _ => {}
         }
+        // a reference to a static item: name the item
+        if let mir::Const::Val(mir::ConstValue::Scalar(mir::interpret::Scalar::Ptr(ptr, _)), _) = c.const_ {
+            if let Some(mir::interpret::GlobalAlloc::Static(sd)) = tcx.try_get_global_alloc(ptr.provenance.alloc_id()) {
+                v.push(("static", s(path_str(tcx, sd))));
+            }
+        }
         let env = ty::TypingEnv::post_analysis(tcx, body.source.def_id());
         let is_scalar = matches!(ty.kind(), ty::Bool | ty::Char | ty::Int(_) | ty::Uint(_));
         if is_scalar {
@@ -375,6 +381,12 @@ impl<'tcx> Cx<'tcx> {
         v.push(("kind", s(format!("{:?}", dk))));
         v.push(("span", self.loc(body.span)));
         v.push(("arg_count", n(body.arg_count)));
+        if matches!(dk, DefKind::Fn | DefKind::AssocFn) {
+            // the item's own generic parameters, in the order in which call sites list their arguments
+            let ident = ty::GenericArgs::identity_for_item(tcx, did);
+            let gs: Vec<J> = ident.iter().map(|a| s(with_no_trimmed_paths!(format!("{}", a)))).collect();
+            v.push(("generics", J::Arr(gs)));
+        }
         let derived = tcx.is_automatically_derived(did)
             || tcx.opt_parent(did).map(|p| tcx.is_automatically_derived(p)).unwrap_or(false);
         v.push(("derived", J::Bool(derived)));
